@@ -214,6 +214,12 @@ func (operation *Operation) Validate(ctx context.Context, opts ...ValidationOpti
 		return errors.New("value of responses must be an object")
 	}
 
+	if v := operation.Servers; v != nil {
+		if err := v.Validate(ctx); err != nil {
+			return fmt.Errorf("invalid servers: %w", err)
+		}
+	}
+
 	if v := operation.ExternalDocs; v != nil {
 		if err := v.Validate(ctx); err != nil {
 			return fmt.Errorf("invalid external docs: %w", err)
